@@ -491,7 +491,9 @@ fn eval_item(repo: &git2::Repository, old_oid: git2::Oid, new_oid: git2::Oid, co
             // smaller = better witness: few short files, non-empty plain-mode files, the review path
             let file_cost = |f: &FileC| 2 + f.lines.len() as u64 + f.name.len() as u64 + if f.lines.is_empty() { 3 } else { 0 } + if f.mode != BLOB { 2 } else { 0 };
             let cost: u64 = o.iter().chain(n.iter()).map(file_cost).sum::<u64>() * 8 + if find == Find::Review { 0 } else { 4 } + context.min(3) as u64;
-            (o, n, cost)
+            // deterministic tie-break, so that the kept witnesses do not depend on thread timing
+            let tie = mcx::fnv64(format!("{o:?}{n:?}{context}{}{origin}", find.name()).as_bytes()) & 0xff_ffff;
+            (o, n, (cost << 24) | tie)
         })
     };
     let mut push = |vs: &mut Vec<Violation>, fp: String, what: String, encoded: Option<&str>| {
